@@ -309,6 +309,12 @@ class Check:
         self.findings = load_findings(pid)
         self.rundir = os.path.join(RUN, pid)
         os.makedirs(self.rundir, exist_ok=True)
+        import glob
+        for old in glob.glob(os.path.join(self.rundir, "viol-%s-%d-*.json" % (tier, seed))):
+            try:
+                os.unlink(old)       # replay files of an earlier run with the same tier and seed
+            except OSError:
+                pass
         self._nviol = 0
         self.keyhist = {}
         self.max_report = 40
